@@ -225,7 +225,7 @@ func geojsonOnPanic(c Case) Event {
 	d := Event{"type": "", "keys": []string{}, "coordinates": []string{}, "geometries": []Event{}}
 	return Event{"kind": c.str("kind"), "g": e, "err": "", "jsonvalid": false, "doc": d, "dec": e, "decerr": "", "rawok": false,
 		"raw": Event{"type": "none"}, "gi": Event{"t": "none", "c": []int{}}, "odd": false, "into": []bool{}, "typenames": typeNames, "valid": false,
-		"got": "", "want": "", "gotfc": "", "wantfc": ""}
+		"got": "", "want": "", "gotfc": "", "wantfc": "", "stable": true}
 }
 
 func unmarshalInto(i int, b []byte) error {
@@ -362,6 +362,13 @@ func geojsonExec(c Case) Event {
 		ev["err"] = errStr(err)
 		return ev
 	}
+	// a result belongs to the caller: later calls (on another value, on the same value) must leave it alone
+	keep := append([]byte(nil), b...)
+	_, _ = geom.XY{X: -7.25, Y: 3.5}.AsPoint().MarshalJSON()
+	_, _ = geom.XY{X: 1, Y: 2}.AsPoint().AsGeometry().MarshalJSON()
+	_, _ = g.MarshalJSON()
+	ev["stable"] = bytes.Equal(b, keep)
+	b = keep
 	v, perr := parseGeneric(b)
 	ev["jsonvalid"] = perr == nil && json.Valid(b)
 	if perr != nil {
